@@ -25,13 +25,14 @@
        their ranges are not exhausted.  Both exceptions are part of the statements;
      - buffered masters (Full items) and the oversize-tolerant configuration are not covered; the statements are about the
        abstract reader (the buffered machine yields the same items, Proofs/Refine.v). *)
-From Ebml Require Import Base Tools Spec Reader Pure Proofs.Nesting Proofs.BufferSim Proofs.Tiling Proofs.Extents.
+From Ebml Require Import Base Tools Spec Reader Pure Proofs.Nesting Proofs.BufferSim Proofs.Tiling Proofs.Extents Proofs.AuditNesting.
 
 (* For every input and every sequence of next() / try_recover() / drain operations (so also for the items that follow errors
    and recoveries), the emitted tags are accepted by the checker started with nothing determined and some base chain.  The
    base is empty for a document read from its root; when reading starts inside a document it is the chain of implied
    ancestors of the first placeholder-free element: every End closes the most recent unmatched Start or, when those are used
-   up, an implied ancestor, innermost first. *)
+   up, an implied ancestor, innermost first.  (The statement itself only asserts SOME base; what the base is, is stated by
+   C06_strict_items_well_nested_rooted, C06_clean_items_pinned and C06_strict_items_based below.) *)
 Theorem C06_strict_items_well_nested : forall c input ops,
   c_allow_id c = false -> c_allow_hier c = false -> c_buffered c = [] ->
   exists base, chk (c_sp c) base false (out_tags (p_run c input ops)) <> None.
@@ -90,6 +91,154 @@ Example C06_ex_reject :
   chk sp [] false [TStart 129; TEnd 129; TEnd 129] = None /\
   chk sp [] false [TStart 129; TStart 130; TElem 16641 (VU 5); TEnd 130] = Some ([129], true) /\
   chk sp [] false [TStart 129; TStart 130; TElem 16641 (VU 5); TEnd 130; TEnd 129] = Some ([], true).
+Proof. vm_compute. repeat split; reflexivity. Qed.
+
+(* ------------------------------------------------------------------ the base chain is not arbitrary
+   In C06_strict_items_well_nested and C06_eof_closes_all the base is existential, and a base absorbs any unmatched Ends that
+   precede the first element with a placeholder-free declared path (C06_ex_base_absorbs below).  The statements that follow pin
+   it.  Vocabulary (Proofs/AuditNesting.v): [is_se x]: x is a Start or an element item; [path_ids p]: the ids a declared path
+   names, outermost first; [base_of sp id] = [rev (path_ids (get_path sp id))]: the chain of masters the declared path of [id]
+   names, innermost first (for a placeholder-free path these are the reader's implied ancestors, C06_implied_ancestors). *)
+
+(* Pure checker fact.  If the tags [pre] that precede a Start / element [x] whose declared path is placeholder-free are accepted
+   from the EMPTY base without determining the position, leaving the chain [o] open, then every base from which [pre ++ x ::
+   rest] is accepted satisfies: (o on top of base), outermost first, is exactly the list of ids the declared path of x names. *)
+Theorem C06_base_determined : forall sp base pre o x rest,
+  chk sp [] false pre = Some (o, false) -> is_se x = true -> all_ids (get_path sp (tag_id x)) = true ->
+  chk sp base false (pre ++ x :: rest) <> None -> rev (o ++ base) = path_ids (get_path sp (tag_id x)).
+Proof. exact chk_base_determined. Qed.
+
+(* in particular a sequence that begins with a root element (declared with the empty path) is accepted from the empty base only *)
+Theorem C06_root_forces_empty_base : forall sp base x rest, is_se x = true -> get_path sp (tag_id x) = [] ->
+  chk sp base false (x :: rest) <> None -> base = [].
+Proof. exact chk_root_base. Qed.
+
+(* Rooted form of C06_strict_items_well_nested.  Unknown ids and hierarchy errors not tolerated, nothing buffered, every input,
+   every sequence of next() / try_recover() / drain operations (items after errors and recoveries included): if the first item
+   of the run is a Start or element whose id is declared with the empty path (a root element), the emitted tags are accepted by
+   the checker started from the EMPTY base. *)
+Theorem C06_strict_items_well_nested_rooted : forall c input ops,
+  c_allow_id c = false -> c_allow_hier c = false -> c_buffered c = [] ->
+  forall x rest, out_tags (p_run c input ops) = x :: rest -> is_se x = true -> get_path (c_sp c) (tag_id x) = [] ->
+  chk (c_sp c) [] false (out_tags (p_run c input ops)) <> None.
+Proof. exact strict_items_well_nested_rooted. Qed.
+
+(* Rooted form of C06_eof_closes_all: with Ends emitted at the end of the input, when the drain ends with None and its first
+   item is a root element, the checker started from the EMPTY base ends with nothing open (and the position determined). *)
+Theorem C06_eof_closes_all_rooted : forall c input,
+  c_allow_id c = false -> c_allow_hier c = false -> c_buffered c = [] -> c_emit_eof c = true ->
+  forall outs x rest, p_run c input [RAll] = outs ++ [ONone] -> out_tags outs = x :: rest -> is_se x = true ->
+  get_path (c_sp c) (tag_id x) = [] -> chk (c_sp c) [] false (out_tags outs) = Some ([], true).
+Proof. exact eof_closes_all_rooted. Qed.
+
+(* General form, for the items yielded before the first error or try_recover call ([clean_prefix], as in C06_run_extents).
+   Unknown ids and hierarchy errors not tolerated, nothing buffered, every input, every sequence of operations.  EITHER the
+   items are accepted from the EMPTY base and the checker is still undetermined (so no Start / element with a placeholder-free
+   declared path is among them), OR they are [pre ++ map TEnd o ++ x :: rest] where [x] is a Start / element whose declared
+   path is placeholder-free, [pre] is accepted from the EMPTY base, undetermined (so x is the first such element), leaving
+   exactly the chain [o] open, the Ends that follow close ALL of [o], and the whole sequence is accepted from the base
+   [base_of (c_sp c) (tag_id x)], the masters named by the declared path of x.  (By C06_base_determined no other base does.) *)
+Theorem C06_clean_items_pinned : forall c input ops,
+  c_allow_id c = false -> c_allow_hier c = false -> c_buffered c = [] ->
+  let items := out_tags (clean_prefix (p_run c input ops)) in
+  (exists o, chk (c_sp c) [] false items = Some (o, false)) \/
+  (exists pre o x rest, items = pre ++ map TEnd o ++ x :: rest /\ chk (c_sp c) [] false pre = Some (o, false) /\
+     is_se x = true /\ all_ids (get_path (c_sp c) (tag_id x)) = true /\
+     chk (c_sp c) (base_of (c_sp c) (tag_id x)) false items <> None).
+Proof. exact clean_items_pinned. Qed.
+
+(* a drain stops at its first error: all its items *)
+Theorem C06_drain_items_pinned : forall c input,
+  c_allow_id c = false -> c_allow_hier c = false -> c_buffered c = [] ->
+  let items := out_tags (p_run c input [RAll]) in
+  (exists o, chk (c_sp c) [] false items = Some (o, false)) \/
+  (exists pre o x rest, items = pre ++ map TEnd o ++ x :: rest /\ chk (c_sp c) [] false pre = Some (o, false) /\
+     is_se x = true /\ all_ids (get_path (c_sp c) (tag_id x)) = true /\
+     chk (c_sp c) (base_of (c_sp c) (tag_id x)) false items <> None).
+Proof. exact drain_items_pinned. Qed.
+
+(* C06_eof_closes_all with the base pinned: with Ends emitted at the end of the input, when the drain ends with None, EITHER
+   the checker started from the EMPTY base ends with nothing open, undetermined, OR the items split as above and the checker
+   started from the masters named by the declared path of the first placeholder-free element ends with nothing open. *)
+Theorem C06_eof_closes_all_pinned : forall c input,
+  c_allow_id c = false -> c_allow_hier c = false -> c_buffered c = [] -> c_emit_eof c = true ->
+  forall outs, p_run c input [RAll] = outs ++ [ONone] ->
+  chk (c_sp c) [] false (out_tags outs) = Some ([], false) \/
+  (exists pre o x rest, out_tags outs = pre ++ map TEnd o ++ x :: rest /\ chk (c_sp c) [] false pre = Some (o, false) /\
+     is_se x = true /\ all_ids (get_path (c_sp c) (tag_id x)) = true /\
+     chk (c_sp c) (base_of (c_sp c) (tag_id x)) false (out_tags outs) = Some ([], true)).
+Proof. exact eof_closes_all_pinned. Qed.
+
+(* EVERY run, items after errors and recoveries included (where the general form above fails, see
+   C06_ex_pinned_after_error_counterexample below).  [Based sp base items]: [base = []], or there is an id whose declared path is
+   placeholder-free such that [base = base_of sp id], every id of [base] is declared a master, and [items = pre ++ post] with
+   [pre] accepted from the EMPTY base, undetermined ([pre]: what the reader had produced when it met the header of that id and
+   seeded its implied ancestors).  Unknown ids and hierarchy errors not tolerated, nothing buffered, every input, every
+   sequence of operations: the emitted tags are accepted from a base that satisfies [Based].  In particular no undeclared id,
+   and no chain other than one named by a declared path, ever serves as base. *)
+Theorem C06_strict_items_based : forall c input ops,
+  c_allow_id c = false -> c_allow_hier c = false -> c_buffered c = [] ->
+  exists base, chk (c_sp c) base false (out_tags (p_run c input ops)) <> None /\ Based (c_sp c) base (out_tags (p_run c input ops)).
+Proof. exact strict_items_based. Qed.
+
+(* the reader's implied ancestors of a declared path are the masters the path names, innermost first *)
+Theorem C06_implied_ancestors : forall sp p stk, implied_stack sp p = Some stk -> map f_id stk = rev (path_ids p).
+Proof. exact implied_stack_ids. Qed.
+
+(* Root(129) > Seg(130) > Val(16641); Void(236) may occur anywhere.  [strays]: two unmatched Ends - of ids the specification
+   does not even declare - before the first placeholder-free element: a suitable base absorbs them, so the existential
+   statement does not exclude them.  The pinned statements do: the empty base rejects the sequence, the only other candidate,
+   the base named by Val's declared path, rejects it too, and its prefix before Val is not accepted from the empty base.
+   [mid] (reading starts inside a Seg, C06_ex_run): the items are pre = [Void], no Ends, x = Val 5, and the base is [Seg; Root]. *)
+Example C06_ex_base_absorbs :
+  let sp := [ {| e_id := 129; e_ty := DMaster; e_path := [] |}; {| e_id := 130; e_ty := DMaster; e_path := [PId 129] |};
+              {| e_id := 16641; e_ty := DUInt; e_path := [PId 129; PId 130] |};
+              {| e_id := 236; e_ty := DBinary; e_path := [PGlobal None None] |} ] in
+  let c := {| c_sp := sp; c_allow_id := false; c_allow_hier := false; c_allow_over := false; c_max := Some 4000000000;
+              c_buffered := []; c_emit_eof := true |} in
+  let strays := [TEnd 777; TEnd 5; TElem 16641 (VU 1); TEnd 130; TEnd 129] in
+  let mid := [236; 129; 0; 65; 1; 129; 5; 130; 132; 65; 1; 129; 6] in
+  chk sp [777; 5; 130; 129] false strays = Some ([], true) /\
+  chk sp [] false strays = None /\
+  base_of sp 16641 = [130; 129] /\
+  chk sp (base_of sp 16641) false strays = None /\
+  chk sp [] false [TEnd 777; TEnd 5] = None /\
+  out_tags (p_run c mid [RAll]) = [TElem 236 (VB [0])] ++ map TEnd [] ++ TElem 16641 (VU 5) :: [TEnd 130; TStart 130; TElem 16641 (VU 6); TEnd 130; TEnd 129] /\
+  chk sp [] false [TElem 236 (VB [0])] = Some ([], false) /\
+  chk sp (base_of sp 16641) false (out_tags (p_run c mid [RAll])) = Some ([], true).
+Proof. vm_compute. repeat split; reflexivity. Qed.
+
+(* ... and the absorbing base of [strays] is excluded for every run by C06_strict_items_based: 777 is not a declared master *)
+Example C06_ex_strays_not_based :
+  let sp := [ {| e_id := 129; e_ty := DMaster; e_path := [] |}; {| e_id := 130; e_ty := DMaster; e_path := [PId 129] |};
+              {| e_id := 16641; e_ty := DUInt; e_path := [PId 129; PId 130] |};
+              {| e_id := 236; e_ty := DBinary; e_path := [PGlobal None None] |} ] in
+  ~ Based sp [777; 5; 130; 129] [TEnd 777; TEnd 5; TElem 16641 (VU 1); TEnd 130; TEnd 129].
+Proof.
+  cbv zeta. intros [H|[id [pre [post [_ [_ [H3 _]]]]]]]; [discriminate H|].
+  apply Forall_cons_iff in H3. destruct H3 as [H3 _]. vm_compute in H3. discriminate H3.
+Qed.
+
+(* The general form stops at the first error for a reason.  Top(132) is a global master, Leaf(16643) is declared Top/Leaf.
+   Input: Top { Leaf }.  Leaf is the first element with a placeholder-free path and it is met inside an open Top: the reader
+   seeds Leaf's implied ancestor Top below the open Top, the path no longer matches, hierarchy error (C01_ex_known_needs_dstart).
+   After the failed recovery the drain emits the End of the open Top and the End of the seeded Top: three items, none with a
+   placeholder-free path, NOT accepted from the empty base; they are accepted from [Top], the implied ancestors of an element
+   that was never emitted (so C06_strict_items_well_nested holds, the pinned form does not extend past the error). *)
+Example C06_ex_pinned_after_error_counterexample :
+  let sp := [ {| e_id := 129; e_ty := DMaster; e_path := [] |}; {| e_id := 132; e_ty := DMaster; e_path := [PGlobal None None] |};
+              {| e_id := 16643; e_ty := DBinary; e_path := [PId 132] |} ] in
+  let c := {| c_sp := sp; c_allow_id := false; c_allow_hier := false; c_allow_over := false; c_max := Some 4000000000;
+              c_buffered := []; c_emit_eof := true |} in
+  let input := [132; 132; 65; 3; 129; 7] in
+  p_run c input [RAll; RRecover; RAll] =
+    [OItem (TStart 132) 0; OErr (RHierarchy 16643 (Some 132)); ORecErr (REof 6 None None None);
+     OItem (TEnd 132) 0; OItem (TEnd 132) 0; ONone] /\
+  chk sp [] false (out_tags (p_run c input [RAll; RRecover; RAll])) = None /\
+  chk sp [132] false (out_tags (p_run c input [RAll; RRecover; RAll])) = Some ([], false) /\
+  base_of sp 16643 = [132] /\
+  out_tags (clean_prefix (p_run c input [RAll; RRecover; RAll])) = [TStart 132] /\
+  chk sp [] false [TStart 132] = Some ([132], false).
 Proof. vm_compute. repeat split; reflexivity. Qed.
 
 (* ================================================================== byte ranges *)
@@ -208,6 +357,42 @@ Proof. exact run_extents. Qed.
 Theorem C06_run_all_extents : forall c input, c_allow_over c = false -> c_buffered c = [] ->
   exists base, nobase base /\ chk_ext input base 0 (out_pairs (p_run c input [RAll])) <> None.
 Proof. exact run_all_extents. Qed.
+
+(* The base of C06_run_extents pinned ([nobase base] constrains only offsets and ranges, not ids).  Rooted form: with unknown ids
+   and hierarchy errors not tolerated as well, if the first item of the run is a root element (declared with the empty path)
+   the items before the first error or try_recover call are accepted from the EMPTY base. *)
+Theorem C06_run_extents_rooted : forall c input ops,
+  c_allow_id c = false -> c_allow_hier c = false -> c_allow_over c = false -> c_buffered c = [] ->
+  forall x rest, out_tags (p_run c input ops) = x :: rest -> is_se x = true -> get_path (c_sp c) (tag_id x) = [] ->
+  chk_ext input [] 0 (out_pairs (clean_prefix (p_run c input ops))) <> None.
+Proof. exact run_extents_rooted. Qed.
+
+(* General form: ONE base serves all three checkers.  [pinned_base sp tags base]: either [base = []] and [tags] are accepted
+   from the empty base, undetermined; or [tags = pre ++ map TEnd o ++ x :: rest] as in C06_clean_items_pinned and
+   [base = base_of sp (tag_id x)].  [zbase base] / [ebase base]: the ids of [base] as (id, offset 0) pairs / (id, offset 0, no
+   range) entries.  For the items before the first error or try_recover call: the nesting checker accepts the tags from [base],
+   the End-offset checker of C03 accepts the (tag, offset) pairs from [zbase base], and - oversized children not tolerated -
+   the byte-range checker accepts them from [ebase base]. *)
+Theorem C06_clean_prefix_pinned_all : forall c input ops,
+  c_allow_id c = false -> c_allow_hier c = false -> c_buffered c = [] ->
+  let cp := clean_prefix (p_run c input ops) in
+  exists base, pinned_base (c_sp c) (out_tags cp) base /\
+    chk (c_sp c) base false (out_tags cp) <> None /\
+    chk_off (zbase base) (out_pairs cp) <> None /\
+    (c_allow_over c = false -> chk_ext input (ebase base) 0 (out_pairs cp) <> None).
+Proof. exact clean_prefix_pinned_all. Qed.
+
+Theorem C06_run_extents_pinned : forall c input ops,
+  c_allow_id c = false -> c_allow_hier c = false -> c_allow_over c = false -> c_buffered c = [] ->
+  let cp := clean_prefix (p_run c input ops) in
+  exists base, pinned_base (c_sp c) (out_tags cp) base /\ chk_ext input (ebase base) 0 (out_pairs cp) <> None.
+Proof. exact clean_extents_pinned. Qed.
+
+(* whatever base the byte-range checker accepts a sequence from, it accepts it from (the entries of) every base the nesting
+   checker accepts its tags from *)
+Theorem C06_chk_ext_same_base : forall sp input items baseE base, nobase baseE ->
+  chk_ext input baseE 0 items <> None -> chk sp base false (map fst items) <> None -> chk_ext input (ebase base) 0 items <> None.
+Proof. intros sp input items baseE base Hz H1 H2. exact (chk_ext_same_base sp input items [] baseE base 0 false Hz H1 H2). Qed.
 
 (* the checker is compositional, so every prefix of an accepted sequence is accepted *)
 Theorem C06_chk_ext_app : forall input a b open cur,
